@@ -130,6 +130,44 @@ func e2eC17(repo, dir string, vals map[string]string) ([]string, error) {
 	if d := sameTree(before, e.tree()); len(d) > 0 || code != 1 {
 		bad = append(bad, "failing run (bad first) changed files or exit code: "+strings.Join(d, ", "))
 	}
+	// a pattern that matches no loadable package fails the whole run
+	b1 := e.tree()
+	code, _, se = e.run("gen", "./good", "./doesnotexist")
+	if code != 1 || strings.TrimSpace(se) == "" {
+		bad = append(bad, fmt.Sprintf("run with a package pattern that does not exist exits %d / empty stderr, want 1 and a diagnostic", code))
+	}
+	if d := sameTree(b1, e.tree()); len(d) > 0 {
+		bad = append(bad, "run with a package pattern that does not exist changed files: "+strings.Join(d, ", "))
+	}
+	// two packages with the same package name and the same interface name are two converters
+	for _, d := range []string{"order", "user"} {
+		e.write("dup/"+d+"/mapper/in.go", "package mapper\n\n// goverter:converter\ntype Converter interface {\n\tConvert(source In) Out\n}\ntype In struct{ A int }\ntype Out struct{ A int }\n")
+	}
+	code, _, se = e.run("gen", "./dup/...")
+	for _, d := range []string{"order", "user"} {
+		if _, err := os.Stat(filepath.Join(e.dir, "dup", d, "mapper/generated/generated.go")); code != 0 || err != nil {
+			bad = append(bad, "same package and interface name in two directories: output of "+d+"/mapper missing (exit "+fmt.Sprint(code)+"): "+firstLine(se))
+		}
+	}
+	os.RemoveAll(filepath.Join(e.dir, "dup"))
+	for _, d := range []string{"order", "user"} {
+		src := e2eGood
+		if d == "user" {
+			src = e2eBad
+		}
+		e.write("dup2/"+d+"/mapper/in.go", strings.Replace(strings.Replace(strings.Replace(src, "package good", "package mapper", 1), "package bad", "package mapper", 1), "type C interface", "type Converter interface", 1))
+	}
+	b2 := e.tree()
+	for _, argv := range [][]string{{"gen", "./dup2/..."}, {"gen", "./dup2/user/mapper", "./dup2/order/mapper"}} {
+		code, _, se = e.run(argv...)
+		if code != 1 || strings.TrimSpace(se) == "" {
+			bad = append(bad, fmt.Sprintf("faulty converter sharing package and interface name with a good one (`%s`): exit %d / empty stderr", strings.Join(argv, " "), code))
+		}
+		if d := sameTree(b2, e.tree()); len(d) > 0 {
+			bad = append(bad, "... and files were changed: "+strings.Join(d, ", "))
+		}
+	}
+	os.RemoveAll(filepath.Join(e.dir, "dup2"))
 	code, so, _ := e.run("help")
 	if code != 0 || !strings.Contains(so, "Usage") {
 		bad = append(bad, fmt.Sprintf("help exits %d / usage not on stdout", code))
@@ -470,6 +508,26 @@ func e2eC15(repo, dir string, vals map[string]string) ([]string, error) {
 		bad = append(bad, "same file with the same package path but different package names accepted")
 	}
 	bad = append(bad, e2eExistingPackage(e)...)
+	// the same relative output:file (and the same explicit package) written in two directories names two files
+	for _, d := range []string{"rel1", "rel2"} {
+		e.write("twodirs/"+d+"/in.go", "package "+d+"\n\n// goverter:converter\n// goverter:output:file ./gen/conv.go\n// goverter:output:package e2e/twodirs/shared:shared\ntype Conv interface {\n\tConvert(source In) Out\n}\ntype In struct{ A int }\ntype Out struct{ A int }\n")
+	}
+	code, _, se = e.run("gen", "./twodirs/...")
+	for _, d := range []string{"rel1", "rel2"} {
+		b, err := os.ReadFile(filepath.Join(e.dir, "twodirs", d, "gen/conv.go"))
+		if code != 0 || err != nil || !strings.Contains(string(b), "e2e/twodirs/"+d+"\"") || strings.Count(string(b), "type ConvImpl struct") != 1 {
+			bad = append(bad, "converters of two directories with the same relative output:file: "+d+"/gen/conv.go missing or not holding exactly its own converter: "+firstLine(se))
+		}
+	}
+	// inferred package names are valid identifiers (directory names with leading digits, dashes, dots)
+	for dirName, want := range map[string]string{"2fa": "fa", "my-gen.v2": "mygenv2"} {
+		e.write("odd/in.go", "package odd\n\n// goverter:converter\n// goverter:output:file ./"+dirName+"/conv.go\ntype C interface {\n\tConvert(source In) Out\n}\ntype In struct{ A int }\ntype Out struct{ A int }\n")
+		code, _, se = e.run("gen", "./odd")
+		b, _ := os.ReadFile(filepath.Join(e.dir, "odd", dirName, "conv.go"))
+		if code != 0 || !strings.Contains(string(b), "\npackage "+want+"\n") {
+			bad = append(bad, fmt.Sprintf("output directory %q: exit %d, package clause is not `package %s`: %s", dirName, code, want, firstLine(se)))
+		}
+	}
 	// @cwd/ with a relative -cwd lands under the working directory
 	sub, err2 := newE2E(repo, filepath.Join(dir, "rel"))
 	if err2 == nil {
@@ -614,6 +672,36 @@ func e2eC09(repo, dir string, vals map[string]string) ([]string, error) {
 	if d1 != d2 {
 		bad = append(bad, "two faulty converters of the same name: `gen ./fa ./fb` and `gen ./fb ./fa` report different diagnostics ("+firstLine(d1)+" vs "+firstLine(d2)+")")
 	}
+	// helper names that collide across packages (v1/model.Item, v2/model.Item ...) get their numeric suffixes in a
+	// fixed order; several faulty methods of one converter report the same one
+	var hdecl, hmeth strings.Builder
+	for i := 1; i <= 6; i++ {
+		e.write(fmt.Sprintf("hv/v%d/model/m.go", i), "package model\n\ntype Item struct{ A int }\n")
+		fmt.Fprintf(&hdecl, "\tm%d \"e2e/hv/v%d/model\"\n", i, i)
+		fmt.Fprintf(&hmeth, "\tFrom%d(source []m%d.Item) []Out\n", i, i)
+	}
+	e.write("hv/in.go", "package hv\n\nimport (\n"+hdecl.String()+")\n\n// goverter:converter\ntype C interface {\n"+hmeth.String()+"}\ntype Out struct{ A int }\n")
+	hOuts := map[string]bool{}
+	for i := 0; i < 12; i++ {
+		code, _, se := e.run("gen", "./hv")
+		b, _ := os.ReadFile(filepath.Join(e.dir, "hv/generated/generated.go"))
+		hOuts[fmt.Sprintf("%d|%s|%s", code, se, b)] = true
+	}
+	if len(hOuts) > 1 {
+		bad = append(bad, fmt.Sprintf("%d different outputs in 12 fresh processes for helper names that collide across packages", len(hOuts)))
+	}
+	// faulty converters going to different output files: the same diagnostic in every fresh process
+	for i := 1; i <= 6; i++ {
+		e.write(fmt.Sprintf("pf/p%d/in.go", i), fmt.Sprintf("package p%d\n\n// goverter:converter\ntype C%d interface {\n\tConvert(source In) Out\n}\ntype In struct{ A int }\ntype Out struct{ A, Missing%d int }\n", i, i, i))
+	}
+	pfDiag := map[string]bool{}
+	for i := 0; i < 16; i++ {
+		_, _, se := e.run("gen", "./pf/...")
+		pfDiag[se] = true
+	}
+	if len(pfDiag) > 1 {
+		bad = append(bad, fmt.Sprintf("%d different diagnostics in 16 fresh processes for six faulty converters with six output files", len(pfDiag)))
+	}
 	// the same for faults found while the settings are parsed (differently named converters)
 	for _, pk := range []string{"ca", "cb"} {
 		e.write(pk+"/in.go", "package "+pk+"\n\n// goverter:converter\n// goverter:nosuchsetting"+pk+"\ntype Conv"+pk+" interface {\n\tConvert(source In) Out\n}\ntype In struct{ A int }\ntype Out struct{ A int }\n")
@@ -636,7 +724,40 @@ func e2eC09(repo, dir string, vals map[string]string) ([]string, error) {
 	return bad, nil
 }
 
+// e2eC19: which comments count as settings, seen through whole runs.
+func e2eC19(repo, dir string, vals map[string]string) ([]string, error) {
+	e, err := newE2E(repo, dir)
+	if err != nil {
+		return nil, err
+	}
+	var bad []string
+	// a converter declared in a file that starts with a generated-code header (scaffolded code) is still a converter
+	e.write("hdr/in.go", "// Code generated by some-scaffolder. DO NOT EDIT.\n\npackage hdr\n\n// goverter:converter\ntype Scaffolded interface {\n\tConvert(source In) Out\n}\ntype In struct{ A int }\ntype Out struct{ A int }\n")
+	e.write("hdr/other.go", "package hdr\n\n// goverter:converter\ntype Plain interface {\n\tConvert(source In) Out\n}\n")
+	code, _, se := e.run("gen", "./hdr")
+	b, _ := os.ReadFile(filepath.Join(e.dir, "hdr/generated/generated.go"))
+	if code != 0 || !strings.Contains(string(b), "type ScaffoldedImpl struct") || !strings.Contains(string(b), "type PlainImpl struct") {
+		bad = append(bad, "converter declared in a file with a `Code generated ... DO NOT EDIT.` header is not generated: "+firstLine(se))
+	}
+	// repeated lines are all applied in order: yes / no / yes ends as yes
+	e.write("rep/in.go", "package rep\n\n// goverter:converter\n// goverter:ignoreMissing yes\n// goverter:ignoreMissing no\n// goverter:ignoreMissing yes\ntype C interface {\n\tConvert(source In) Out\n}\ntype In struct{ A int }\ntype Out struct{ A, Missing int }\n")
+	if code, _, se := e.run("gen", "./rep"); code != 0 {
+		bad = append(bad, "ignoreMissing yes / no / yes does not end as yes: "+firstLine(se))
+	}
+	e.write("rep2/in.go", "package rep2\n\n// goverter:converter\n// goverter:ignoreMissing no\n// goverter:ignoreMissing yes\n// goverter:ignoreMissing no\ntype C interface {\n\tConvert(source In) Out\n}\ntype In struct{ A int }\ntype Out struct{ A, Missing int }\n")
+	if code, _, _ := e.run("gen", "./rep2"); code != 1 {
+		bad = append(bad, "ignoreMissing no / yes / no does not end as no")
+	}
+	// trailing comments and detached comments are no settings
+	e.write("trail/in.go", "package trail\n\n// goverter:ignoreMissing\n\n// goverter:converter\ntype C interface {\n\tConvert(source In) Out // goverter:ignore Missing\n}\ntype In struct{ A int }\ntype Out struct{ A, Missing int }\n")
+	if code, _, _ := e.run("gen", "./trail"); code != 1 {
+		bad = append(bad, "a trailing or detached comment acted as a setting")
+	}
+	return bad, nil
+}
+
 var e2eScenarios = map[string]func(repo, dir string, vals map[string]string) ([]string, error){
+	"c19": e2eC19,
 	"c09": e2eC09,
 	"c15": e2eC15,
 	"c16": e2eC16,
